@@ -84,7 +84,15 @@ type State struct {
 	subCache map[string]*Term
 	condCache map[string]bool
 	charset  map[string]string
+	preds    []predUse
+	predDecl map[string]bool
 	maxlen   map[string]int
+	minlen   map[string]int
+}
+
+type predUse struct {
+	Name string
+	Arg  *Term
 }
 
 type knownRegion struct {
@@ -301,6 +309,22 @@ func (st *State) model() map[string]string {
 		}
 		cnt[n.Label]++
 		res[k] = fmt.Sprint(ParseSMTValue(vals[n.Name]))
+	}
+	// interpretation of the uninterpreted predicates at the points used
+	for _, p := range st.preds {
+		av, err1 := st.E.Solver.GetValues([]string{p.Arg.S})
+		pv, err2 := st.E.Solver.GetValues([]string{fmt.Sprintf("(%s %s)", p.Name, p.Arg.S)})
+		if err1 != nil || err2 != nil {
+			continue
+		}
+		var a, v string
+		for _, x := range av {
+			a = fmt.Sprint(ParseSMTValue(x))
+		}
+		for _, x := range pv {
+			v = fmt.Sprint(ParseSMTValue(x))
+		}
+		res["pred:"+p.Name+":"+a] = v
 	}
 	return res
 }
